@@ -8,8 +8,15 @@ most half the absolute tolerance; a logarithmically rounded value differs from t
 by at most half of log(1 + t); multi_round picks the logarithmic rounding exactly where t*x exceeds the
 absolute tolerance.  (From these, by arithmetic: if two rounded values compare r(a) <= r(b) then
 a <= (1+t)*b resp. a <= b + A -- the slack the property states.)
-makepareto / PmappingDataframe.make_pareto themselves (pandas column algebra, the Pareto filter of C11) are NOT
-under contract: the property is decided by the bounded check (oracles/C12.py); the check is registered at level
+Also under contract: the column loop of makepareto (slice `classify_columns`): exactly the non-constant columns that
+are listed (or are fused-loop / split-by columns) reach the Pareto filter, in column order; objectives with goal
+'min' after logarithmic rounding with the OBJECTIVE tolerance, fused-loop columns with goal 'diff' and untouched
+values, reservations with goal 'min' after multi_round with the relative and absolute RESOURCE tolerances, other
+listed columns with goal 'min' untouched (pandas: DataFrame[c], Series.values, ndarray == scalar, .all() modelled;
+the rounded Series are identified by (source Series, tolerances) -- the link to the pointwise kernel contracts is the
+pointwise-model assumption).
+The rest of makepareto / PmappingDataframe.make_pareto (column selection by name parsing, pd.concat, the Pareto
+filter of C11) is NOT under contract: the property is decided by the bounded check (oracles/C12.py); the check is registered at level
 `exploration`.
 """
 import z3
@@ -21,6 +28,7 @@ F = "accelforge/mapper/FFM/_pareto_df/pareto.py"
 P.oracle = "C12"
 P.claim_level = "exploration"
 P.assume_note("pointwise model: x is one entry of the Series / array; pandas / numpy arithmetic, np.round, np.log, np.exp, np.where are elementwise")
+P.assume_note("makepareto slice: iterating DataFrame.columns yields the column names in order; DataFrame[c] is a pure function of the table and the name; Series.values is a 1-D array, `arr == arr[0]` its elementwise mask and .all() the conjunction; is_objective_col / col2reservation are pure predicates of the name; a rounding kernel applied to a whole Series is the Series of the pointwise results")
 P.assume_note("np.round(u) is an integer within 1/2 of u; np.log / np.exp are inverse, strictly increasing functions (uninterpreted otherwise); Series.min() is a lower bound of every entry")
 
 LOG = Function("np_log", RealSort(), RealSort())
@@ -78,10 +86,24 @@ def c_round_abs(c):
     c.post("a_multiple_of_the_step", lambda r: Implies(t > 0, VV.to_real(r) == RND(x / t) * t))
 
 
+P.classes |= {"DataFrame", "Series"}
+P.field("columns", SEQ(ELEM))
+P.field("values", SEQ(VAL))
+P.ndarray_fields |= {"values"}
+COLUMN = Function("column_of_table", Ref, VV.Elem, Ref)               # mappings[c]
+LOGROUNDED = Function("series_rounded_logarithmically", Ref, RealSort(), Ref)     # logscale_to_tolerance(series, t), as a whole
+MULTIROUNDED = Function("series_multi_rounded", Ref, RealSort(), RealSort(), Ref)  # multi_round(series, t, A), as a whole
+
+
 @P.fn(F, "logscale_to_tolerance")
 def c_round_log(c):
-    x = c.arg("x", REAL)
+    x = c.arg("x", REAL if c.mode != "call" else CONST(None))
     t = c.arg("tolerance", OPT(REAL))
+    if isinstance(x, ObjV):
+        # called with a whole Series (makepareto): the Series whose entries are rounded as this contract says
+        # (pointwise model); identified by the source Series and the tolerance
+        c.result_is(ObjV(LOGROUNDED(x.ref, If(t.isnone, RealVal(0), t.val)), "Series"))
+        return
     c.pre("tolerance_nonnegative", Or(t.isnone, t.val >= 0))
     c.result(REAL)
     c.raises("AssertionError", when=lambda: BoolVal(False), name="never")
@@ -93,9 +115,12 @@ def c_round_log(c):
 
 @P.fn(F, "multi_round")
 def c_multi_round(c):
-    x = c.arg("x", REAL)
+    x = c.arg("x", REAL if c.mode != "call" else CONST(None))
     t = c.arg("tolerance", OPT(REAL))
     A = c.arg("absolute_tolerance", OPT(REAL))
+    if isinstance(x, ObjV):
+        c.result_is(ObjV(MULTIROUNDED(x.ref, If(t.isnone, RealVal(0), t.val), If(A.isnone, RealVal(0), A.val)), "Series"))
+        return
     c.pre("tolerances_nonnegative", And(Or(t.isnone, t.val >= 0), Or(A.isnone, A.val >= 0)))
     c.result(REAL)
     tv = If(t.isnone, RealVal(0), t.val)
@@ -107,3 +132,99 @@ def c_multi_round(c):
     c.post("rounded_logarithmically_where_the_relative_step_is_larger", lambda r: Implies(And(use_log, MINOF(x) > 0), logr(VV.to_real(r))))
     c.post("rounded_absolutely_elsewhere", lambda r: Implies(And(Not(use_log), tv == 0), absr(VV.to_real(r))))
     c.post("never_further_than_the_larger_slack", lambda r: Or(VV.to_real(r) == x, absr(VV.to_real(r)), And(MINOF(x) > 0, logr(VV.to_real(r)))))
+
+
+# ---------------------------------------------------------------------------------------------------------
+# makepareto: which columns reach the Pareto filter, with which goal and which rounding (the loop over the
+# columns, as a slice).  From the statement: rows are compared only within identical fused-loop tile shapes
+# (goal 'diff', values untouched); objectives are minimised after rounding with the OBJECTIVE tolerance;
+# reservations are minimised after rounding with the relative and absolute RESOURCE tolerances; constant
+# columns never take part.
+
+ISOBJ = Function("is_objective_col", VV.Elem, BoolSort())
+ISRES = Function("is_reservation_col", VV.Elem, BoolSort())
+
+
+@P.external("is_objective_col", "df_convention.is_objective_col(c): a pure predicate on the column name")
+def c_is_obj(c):
+    n = c.arg("c", ELEM)
+    c.result_is(ISOBJ(n))
+
+
+@P.external("col2reservation", "df_convention.col2reservation(c): None unless the column name is a reservation (pure)")
+def c_col2res(c):
+    n = c.arg("x", ELEM)
+    c.result(OPT(VAL))
+    c.post("none_unless_reservation", lambda r: r.isnone == Not(ISRES(n)))
+
+
+@P.external("__getitem__", "DataFrame[column name]: that column as a Series (pure)", cls="DataFrame")
+def c_df_col(c):
+    d = c.arg("self", OBJ("DataFrame"))
+    k = c.arg("key", ELEM)
+    c.result_is(ObjV(COLUMN(d.ref, k), "Series"))
+
+
+@P.slice(F, "makepareto", "classify_columns", "goals = []", "for c in mappings.columns:")
+def c_classify(c):
+    m = c.var("mappings", OBJ("DataFrame"))
+    cols_set = c.var("columns_set", SET(ELEM))
+    split_set = c.var("split_by_cols_set", SET(ELEM))
+    ot = c.var("objective_tolerance", REAL)
+    rt = c.var("resource_usage_tolerance", REAL)
+    at_ = c.var("absolute_resource_usage_tolerance", REAL)
+    c.local("goals", SEQ(ELEM))
+    c.local("to_pareto", SEQ(OBJ("Series")))
+    ex = c.ex
+    cols = ex.materialize(c.field(m, "columns"))
+    (ca,) = arrs_of(cols)
+    n = cols.n
+    NAME = lambda j: Select(ca, j)
+    SER = lambda j: COLUMN(m.ref, NAME(j))
+    vals_n = lambda j: ex.materialize(ex.read_field(ObjV(SER(j), "Series"), "values"))
+    j, i = Ints("kj ki")
+
+    def constant(j_):
+        v = vals_n(j_)
+        (va,) = arrs_of(v)
+        return Or(v.n <= 1, ForAll([i], Implies(And(i >= 0, i < v.n), Select(va, i) == Select(va, 0))))
+
+    in_cols = lambda j_: Select(cols_set.arr, NAME(j_))
+    in_split = lambda j_: Select(split_set.arr, NAME(j_))
+    objective = lambda j_: And(in_cols(j_), ISOBJ(NAME(j_)))
+    fused = lambda j_: And(Not(objective(j_)), in_split(j_))
+    reservation = lambda j_: And(Not(objective(j_)), Not(in_split(j_)), in_cols(j_), ISRES(NAME(j_)))
+    plain = lambda j_: And(Not(objective(j_)), Not(in_split(j_)), in_cols(j_), Not(ISRES(NAME(j_))))
+    used = lambda j_: And(Not(constant(j_)), Or(in_cols(j_), in_split(j_)))
+    # position of column j among the used ones (recursively defined count)
+    POS = Function(fresh_name("used_columns_before"), IntSort(), IntSort())
+    ex.assume(POS(0) == 0)
+    ex.assume(ForAll([j], Implies(And(j >= 1, j <= n), POS(j) == POS(j - 1) + If(used(j - 1), 1, 0)), patterns=[POS(j)]))
+    MIN, DIFF = P.elem_of_str("min"), P.elem_of_str("diff")
+
+    def state(goals, tp, upto):
+        goals, tp = ex.materialize(goals), ex.materialize(tp)
+        G = lambda j_: at(goals, POS(j_))
+        T = lambda j_: at(tp, POS(j_))
+        return [
+            ("one_entry_per_used_column", And(goals.n == POS(upto), tp.n == POS(upto), POS(upto) >= 0)),
+            ("entries_in_column_order_with_goal_and_rounding", forall([j], Implies(And(j >= 0, j < upto, used(j)), And(
+                POS(j) >= 0, POS(j) < goals.n,
+                Implies(objective(j), And(G(j) == MIN, T(j) == LOGROUNDED(SER(j), ot))),
+                Implies(fused(j), And(G(j) == DIFF, T(j) == SER(j))),
+                Implies(reservation(j), And(G(j) == MIN, T(j) == MULTIROUNDED(SER(j), rt, at_))),
+                Implies(plain(j), And(G(j) == MIN, T(j) == SER(j))))), patterns=[POS(j)])),
+        ]
+
+    c.invariant("L0", lambda L: state(L.v("goals"), L.v("to_pareto"), L.k))
+    for nm, f in state_posts(state, n):
+        c.post(nm, f)
+
+
+def state_posts(state, n):
+    out = []
+    for idx in range(2):
+        def mk(idx=idx):
+            return lambda res: state(res["goals"], res["to_pareto"], n)[idx][1]
+        out.append((["one_entry_per_used_column", "entries_in_column_order_with_goal_and_rounding"][idx], mk()))
+    return out
